@@ -15,6 +15,9 @@ OUT = 'outside its own range the model returns the incoming value'
 F3 = [(f, s) for f in range(3) for s in (0, 3)]
 TUS_OCE = ['c05_oceanic.cc'] + BASE + ['features/oceanic_plate_models/temperature/%s' % m for m in ('half_space_model', 'plate_model', 'plate_model_constant_age', 'interface')]
 STO = ST + ['calculate_ridge_distance_and_spreading replaced by a stub returning (spreading velocity > 0, distance >= 0); its arithmetic is C05.ridge']
+LINE_MODELS = ['features/%s_models/%s' % (f, m) for f in ('subducting_plate', 'fault') for m in ('temperature/uniform', 'temperature/linear', 'temperature/adiabatic', 'composition/uniform', 'velocity/uniform_raw', 'temperature/interface', 'composition/interface', 'velocity/interface', 'grains/interface')] \
+              + ['features/plume_models/%s' % m for m in ('temperature/uniform', 'temperature/gaussian', 'composition/uniform', 'velocity/uniform_raw', 'temperature/interface', 'composition/interface', 'velocity/interface', 'grains/interface')]
+TUS_LINE = ['c05_line.cc'] + BASE + LINE_MODELS
 OBLIGATIONS = [
     ob('C05.area.uniformT', 'h_c05_uniform_T', F3, ['uniform temperature: the configured value combined by the declared operation', OUT, 'end'], 'all parameters, 3 area families, constant and variable depth surfaces, 4 operations'),
     ob('C05.area.adiabaticT', 'h_c05_adiabatic_T', F3, ['adiabatic temperature: Tp*exp(alpha*g*depth/cp) with the model\'s constants', OUT, 'end'], 'as above'),
@@ -34,4 +37,12 @@ OBLIGATIONS = [
     ob('C05.ridge', 'h_c05_ridge', [(0, 1), (1, 1)], ['distance is the Euclidean distance to the nearest point of the ridge polyline', 'distance is the smaller of the distances of the two longitude aliases\' nearest ridge points',
        'spreading velocity is interpolated at the chosen nearest ridge point (m/yr -> m/s)', 'end'], 'one ridge of 1..2 segments; Cartesian with the real distance, spherical with an uninterpreted great-circle distance (choice logic only)',
        tus=['c05_ridge.cc'] + BASE, stubs=['spherical distance_between_points_at_same_depth -> uninterpreted function of the compared point (its formula is C19.gc)'], cases_thorough=[(0, 1), (1, 1), (0, 2), (1, 2)]),
+    ob('C05.line.uniformT', 'h_c05_line_uniform_T', [(0,), (1,)], ['the model query stores only to fresh memory', 'uniform temperature: the configured value combined by the declared operation', OUT, 'end'], 'slab and fault families, all parameters', tus=TUS_LINE),
+    ob('C05.line.adiabaticT', 'h_c05_line_adiabatic_T', [(0,), (1,)], ['negative local constants are replaced by the global ones', 'adiabatic temperature: Tp*exp(alpha*g*depth/cp) with the model\'s constants', OUT, 'end'], 'slab and fault families', tus=TUS_LINE),
+    ob('C05.line.linearT', 'h_c05_line_linear_T', [(0,), (1,)], ['linear temperature: linear in the distance between the model\'s two bounds (negative end members => adiabat there)', OUT, 'end'], 'slab (top/bottom) and fault (center/side) families; bounds at least 1e-9 apart', tus=TUS_LINE),
+    ob('C05.line.uniformC', 'h_c05_line_uniform_C', [(0, 1), (1, 1), (0, 2), (1, 2)], ['uniform composition: a listed composition gets its fraction combined by the operation', 'uniform composition: replace clears the compositions it does not list', OUT, 'end'], '1..2 listed compositions', tus=TUS_LINE),
+    ob('C05.line.uniformV', 'h_c05_line_uniform_V', [(0,), (1,)], ['uniform raw velocity: the configured vector combined by the operation', OUT, 'end'], 'slab and fault families', tus=TUS_LINE),
+    ob('C05.plume.uniformT', 'h_c05_plume_uniform_T', [()], ['uniform temperature: the configured value combined by the declared operation', OUT, 'end'], 'all parameters', tus=TUS_LINE),
+    ob('C05.plume.gaussianT', 'h_c05_plume_gaussian_T', [(1,), (2,)], ['gaussian plume temperature: Tc * exp(-r/(2 sigma^2)) with Tc and sigma interpolated in depth (negative Tc => adiabat)', 'outside the plume the model returns the incoming value', 'end'], '1..2 depth entries (3 thorough), sigmas > 0', tus=TUS_LINE, cases_thorough=[(1,), (2,), (3,)]),
+    ob('C05.plume.uniformC', 'h_c05_plume_uniform_C', [(1,), (2,)], ['uniform composition: a listed composition gets its fraction combined by the operation', 'uniform composition: replace clears the compositions it does not list', OUT, 'end'], '1..2 listed compositions', tus=TUS_LINE),
 ]
